@@ -1767,6 +1767,18 @@ func runC08(a runArgs) error {
 	for i := 0; i < nB; i++ {
 		addScript(c8Script{wire: true, bw: true, bn: true, ops: c8GenBwRandom(rng.Fork())}, "blockwise-notifications")
 	}
+	// tokens that differ by zero bytes in front / behind, prefixes, suffixes, {} next to {00} (harness/c08tok.go);
+	// added last so that the cases of the families above stay the same for a given seed
+	for _, v := range []int{7, 0, 1, 2, 3, 4, 5, 6} {
+		all(c8GenRelatedFixed(rng.Fork(), v), "related-tokens-scenarios")
+	}
+	nR := 60
+	if thorough {
+		nR = 1200
+	}
+	for i := 0; i < nR; i++ {
+		pick(c8GenRelatedRandom(rng.Fork()), "related-tokens", i)
+	}
 	e.Extra["discarded_scripts"] = discarded
 	e.Extra["watchdog_retries"] = badRetries
 	return e.Flush(a.out)
